@@ -117,6 +117,12 @@ def run(ctx, rep):
     # P2b: nothing table-dependent is stored in module state outside the table memos
     from rules.shared import check_history_independence
     check_history_independence(ctx, rep, "P2")
+    # P9: how the table is read: the listed value whenever the key is listed, '?' otherwise -- for every dict content the
+    # setter accepted (a capacity of 0 included) and whatever object the caller handed in   (C06/Q2, C12/G2, shared)
+    from rules.C06 import check_capacity_lookup
+    from rules.shared import check_table_owned
+    check_capacity_lookup(ctx, rep, eff, table_vars, "P9")
+    check_table_owned(ctx, rep, "P9")
     # P4 / P5
     plain, selfkeyed = memo_readers(ctx, eff, table_vars)
     if len(plain) < 2:
